@@ -167,4 +167,43 @@ theorem run_inv (o : Opts) (ops : List Op) (wf : SetWF o (opCands ops)) :
   run_inv_aux o (opCands ops) wf ops [] [] (fun _ h => h) (by simp) List.Pairwise.nil
     List.Pairwise.nil (List.Perm.refl _)
 
+/-! ### membership after one step (no ordering hypotheses needed) -/
+
+theorem srcEqual_of_eq {a b : Src} (h : a = b) : a.equal b = true := by
+  subst h; simp [Src.equal]
+
+theorem mem_calcStep_wd (o : Opts) (l : List Cand) (c : Cand) (hn : NodupKey l) (y : Cand) :
+    y ∈ calcStep o l (.wd c) ↔ y ∈ l ∧ sameKey y c = false := by
+  simp only [calcStep]
+  rw [explicitWithdraw_eq_filter l c hn, List.mem_filter]
+  simp
+
+theorem mem_calcStep_ann (o : Opts) (l : List Cand) (c : Cand) (hn : NodupKey l) (y : Cand) :
+    y ∈ calcStep o l (.ann c) ↔ y = c ∨ (y ∈ l ∧ sameKey c y = false) := by
+  simp only [calcStep]
+  rw [implicitWithdraw_eq_filter l c hn, (insertSort_perm o _ c).mem_iff, List.mem_cons,
+    List.mem_filter]
+  simp
+
+theorem calcStep_nodup (o : Opts) (l : List Cand) (op : Op) (hn : NodupKey l) :
+    NodupKey (calcStep o l op) := by
+  cases op with
+  | wd c =>
+    simp only [calcStep]
+    rw [explicitWithdraw_eq_filter l c hn]
+    exact nodupKey_filter l _ hn
+  | ann c =>
+    simp only [calcStep]
+    rw [implicitWithdraw_eq_filter l c hn]
+    have hperm := insertSort_perm o (l.filter (fun y => !sameKey c y)) c
+    have hnk : NodupKey (c :: l.filter (fun y => !sameKey c y)) := by
+      unfold NodupKey
+      rw [List.pairwise_cons]
+      refine ⟨?_, nodupKey_filter l _ hn⟩
+      intro y hy
+      have := (List.mem_filter.mp hy).2
+      simpa using this
+    unfold NodupKey at *
+    exact hnk.perm hperm.symm (fun {x y} hxy => by rw [sameKey_symm]; exact hxy)
+
 end BestPath
